@@ -187,7 +187,11 @@ def run_fastpath(case, ctx: Ctx):
     # the diagonal of the squared distances, the generic path (lengthscale requires grad) does not, and off-diagonal
     # duplicates are never zeroed: r = sqrt(rounding noise) ~ 1e-8 there, i.e. 1 - 1e-8 on the diagonal of Matern-1/2.
     rough = (not smooth) and (near or same or ncoin > 0)
-    at = 1e-6 if rough else 1e-9
+    # the size of that rounding noise: r ~ sqrt(8 eps) |x / l| in scaled units, i.e. up to 1.5e-6 for |x / l| = 35 (lengthscale 0.1),
+    # and d k / d lengthscale = (r / l) k'(r) carries another 1 / l
+    lmin_ = float(ls.min())
+    noise_ = math.sqrt(8 * 2.2e-16) * float(max(a1.abs().max(), a2.abs().max())) / lmin_ * math.sqrt(max(1, a1.shape[-1]))
+    at = max(1e-6, 4 * noise_ * (1 + 1 / lmin_)) if rough else 1e-9
     gscale_raw = max(1.0, float(want_raw.abs().max()))
 
     with ctx.observing("build"):
